@@ -16,7 +16,7 @@ from vmon.libutil import load_definition, monitored
 
 LEVEL = "exploration"
 SHARDS = {"quick": 16, "thorough": 16}
-MUST = ["offers.show_progress", "offers.file_object", "lockstep.rounds", "stream.clean_clean_bad_clean", "yielded.clean", "yielded.flagged", "withheld.bad", "model.exact", "model.under", "model.over", "model.negative",
+MUST = ["directed.empty_last_field", "directed.dataset_parse_bad_pkts", "offers.show_progress", "offers.file_object", "lockstep.rounds", "stream.clean_clean_bad_clean", "yielded.clean", "yielded.flagged", "withheld.bad", "model.exact", "model.under", "model.over", "model.negative",
         "reads.logged", "reads.negative_width", "reads.past_end", "repeated.streams", "reparse.same_raw_object"]
 RULE = ("case = (generated document, packet whose length is what the definition consumes -9..+9 bytes, or whose "
         "length-controlling fields make a computed size 0 or negative, parse_bad_pkts in {True, False}); each packet is "
@@ -330,3 +330,49 @@ def directed(ctx):
             out = ref.walk(doc, raw)
             for parse_bad in (True, False):
                 offer(ctx, defn, info, raw, out, parse_bad, True, {"directed": f"{fieldname} sized 8*LEN-8, LEN={lenval}, {len(extra)} more bytes"})
+    # ---- a length-dependent layout whose LAST field has a computed size of 0 bits, in a packet of exactly the right length: a clean
+    #      packet (the zero-width read happens with the cursor at the very end); also with one spare / one missing byte
+    ts2, ps2 = header_types("PKT_APID")
+    ts2 += [ir.PType("N_Type", "integer", ir.IntEnc(8, "unsigned", False)), ir.PType("BLOB_Type", "binary", ir.BinEnc(ir.DynLen("N", False, 8, None))),
+            ir.PType("TXT_Type", "string", ir.StrEnc("US-ASCII", ir.DynLen("N", True, 8, None)))]
+    ps2 += [ir.Param("N", "N_Type"), ir.Param("BLOB", "BLOB_Type"), ir.Param("TXT", "TXT_Type")]
+    for fieldname in ("BLOB", "TXT"):
+        root = ir.Container("CCSDSPacket", tuple(("p", p.name) for p in ps2[:7]) + (("p", "N"), ("p", fieldname)))
+        doc = ir.Doc(tuple(ts2), tuple(ps2), (root,))
+        info = harness.DocInfo(doc)
+        defn = load_definition(render.render_doc(doc))
+        for nval, body in ((0, b""), (0, b"\x55"), (1, b"A"), (2, b"AB"), (2, b"A"), (3, b"ABC"), (0, b"")):
+            raw = bytes(P.create_ccsds_packet(bytes([nval]) + body, apid=6))
+            out = ref.walk(doc, raw)
+            for parse_bad in (True, False):
+                offer(ctx, defn, info, raw, out, parse_bad, True, {"directed": f"last field {fieldname} sized 8*N, N={nval}, {len(body)} bytes follow"})
+                ctx.count("directed.empty_last_field")
+    # ---- the dataset builder hands parse_bad_pkts on to the generator for EVERY file: mismatched packets of later files are withheld too
+    if ctx.shard == 3 % ctx.nshards:
+        import os
+        import tempfile
+        from space_packet_parser import xarr
+        root = ir.Container("CCSDSPacket", tuple(("p", p.name) for p in ps2[:7]) + (("p", "N"),))
+        defn = load_definition(render.render_doc(ir.Doc(tuple(ts2), tuple(ps2), (root,))))
+        d = tempfile.mkdtemp(prefix="vmon-c14-", dir=os.environ.get("VMON_SCRATCH"))
+        try:
+            good = lambda v: bytes(P.create_ccsds_packet(bytes([v]), apid=6))
+            longer = lambda v: bytes(P.create_ccsds_packet(bytes([v, 0xEE]), apid=6))
+            files = []
+            for fi, content in enumerate(([good(1), good(2)], [good(3), longer(4), good(5)], [longer(6), good(7)])):
+                path = os.path.join(d, f"f{fi}.bin")
+                with open(path, "wb") as f:
+                    f.write(b"".join(content))
+                files.append(path)
+            for pbp, want in ((False, [1, 2, 3, 5, 7]), (True, [1, 2, 3, 4, 5, 6, 7])):
+                st = monitored(lambda: xarr.create_dataset(files, defn, parse_bad_pkts=pbp))
+                ctx.count("evaluations")
+                ctx.count("directed.dataset_parse_bad_pkts")
+                got = [int(x) for x in st.value[6]["N"].values] if st.exc is None else None
+                if got != want:
+                    ctx.violation(f"dataset/parse_bad_pkts={pbp}/rows", f"create_dataset over three files with parse_bad_pkts={pbp}: N column {got} / {st.exc!r}, expected {want}",
+                                  {"parse_bad_pkts": pbp, "got": got})
+        finally:
+            import shutil
+            shutil.rmtree(d, ignore_errors=True)
+
